@@ -79,8 +79,8 @@ def plan(tier, seed):
     # API errors on attempts 1..4
     for kind in OUTS:
         for n in (1, 2, 3):
-            for exc in ("APIError", "InvalidResponse", "StatusCodeError"):
-                for k in (1, 2, 3, 4):
+            for exc in ("APIError", "InvalidResponse", "StatusCodeError", "ConnectionDropped", "ReadTimeout", "APIErrorReply"):
+                for k in (1, 2, 3, 4, 7):
                     cases.append({"mode": "live", "kind": kind, "n": n, "out": [0] * n, "pre": "none", "api_error": exc, "attempts": k})
     # async placement
     for n in (1, 2):
@@ -263,6 +263,38 @@ def build_sim(desc):
     d = dict(desc)
     d["overrides"] = {"script_params": SCRIPT}
     case, snaps = _sim.build(d)
+    if desc["idx"] % 3 != 0:
+        # the same kind of request for several resting orders in one callback (one package of 2..3 instructions of that kind); any of
+        # its orders - not just the last - may complete while the package is in flight (matched by the flow, lapsed at a suspension
+        # or the turn in-play, voided with its runner)
+        for si, s in enumerate(case["strategies"]):
+            for g in range(rng.randint(1, 3)):
+                m = rng.choice(list(snaps))
+                sn = snaps[m]
+                n_steps = len([x for x in sn if x["status"] != "CLOSED"])
+                opens = [i for i, x in enumerate(sn) if x["status"] == "OPEN" and i + 1 < n_steps and any(r["status"] == "ACTIVE" for r in x["runners"].values())]
+                if not opens:
+                    continue
+                at0 = rng.choice(opens)
+                keys = [k for k, r in sn[at0]["runners"].items() if r["status"] == "ACTIVE"]
+                grp = []
+                for j in range(rng.randint(2, 3)):
+                    key = rng.choice(keys)
+                    side = rng.choice(("BACK", "LAY"))
+                    ref = "g%d_%d_%d" % (si, g, j)
+                    pa = {"m": m, "at": at0, "op": "place", "ref": ref, "trade": "T" + ref, "sel": [key[0], key[1]], "side": side, "otype": "LIMIT", "price": simgen.pick_price(rng, sn[at0]["runners"][key], side, rng.choice(("join", "join", "rest", "at"))), "size": rng.choice((2.0, 5.0, 20.0)), "persistence": rng.choice(("LAPSE", "LAPSE", "PERSIST"))}
+                    grp.append(pa)
+                    s["actions"].append(pa)
+                at = min(n_steps - 1, at0 + rng.choice((1, 1, 2, 3)))
+                op = rng.choice(("update", "update", "cancel", "replace"))
+                for a in grp:
+                    if op == "update":
+                        s["actions"].append({"m": m, "at": at, "op": "update", "ref": a["ref"], "persistence": rng.choice([x for x in ("LAPSE", "PERSIST", "MARKET_ON_CLOSE") if x != a["persistence"]]), "follow": False})
+                    elif op == "cancel":
+                        s["actions"].append({"m": m, "at": at, "op": "cancel", "ref": a["ref"], "reduction": rng.choice((None, 1.0)), "follow": False})
+                    else:
+                        s["actions"].append({"m": m, "at": at, "op": "replace", "ref": a["ref"], "price": a["price"], "follow": False, "mv": None})
+            s["actions"].sort(key=lambda a: a["at"])
     # batch the requests of one step into one transaction so that packages hold several orders
     for s in case["strategies"]:
         by_step = {}
